@@ -22,6 +22,23 @@ CLAIMED = {
    design="DESIGN.md section 4, C20"),
 }
 
+CLAIMED["C06"] = dict(
+   text="Axiom-free Coq theorem: for every MADE the constructor can build (any feature count, hidden width, number of "
+        "blocks, feed-forward or residual blocks, sequential or ANY random degree draw, context term, output "
+        "multiplier, batch norm / dropout / activation as arbitrary per-unit maps) and for ALL weight and bias values "
+        "over any carrier with a*0=0*a=0, output block i is independent of inputs i, i+1, ... - one induction over "
+        "the layer list, for both copies of the implementation. The mask comparison operators, the degree formulas "
+        "and the 'weight*mask on every call' shape of MaskedLinear.forward are regenerated from both source files on "
+        "every run, so the theorem is re-proved against the current code; the mask/degree buffers of every layer of "
+        "real networks are compared exactly with the extracted model, and a bit-exact perturbation experiment on the "
+        "real forward pass (train and eval, batch-norm, dropout) supplies failing inputs. Consequences (triangular "
+        "Jacobian, exact D-pass inverse, MoG factorisation) are exercised on the implementation.",
+   note="Trusted: Coq kernel (no axioms: all four theorems are closed under the global context); translator for "
+        "Gen/MadeT.v and Gen/MadeN.v; extraction; harness. The layer semantics (how blocks compose the masked "
+        "layers) is hand-modelled and tied to the code by the perturbation experiment, not by translation.",
+   technique="Coq proof (structural induction, axiom-free) + AST translator + extracted-model correspondence",
+   design="DESIGN.md section 4, C06")
+
 def main():
     checks = []
     for pid in ALL:
